@@ -22,7 +22,14 @@ SPEC = {
             "yields first on a fresh object for a present one, assert_none_unused judged by a read model; "
             "get_multi over repeated numeric options; floats: literal grammar "
             "tables + seeded long decimals vs CPython float(); one-string constructor: all strings <=5 (quick) / <=6 (thorough) "
-            "over {a,-,=,' ',\",',\\} inside the unambiguous shell subset + seeded structured lines vs shlex.split. "
+            "over {a,-,=,' ',\",',\\} inside the unambiguous shell subset + seeded structured lines vs shlex.split; "
+            "byte alphabet: command lines and tokens with bytes >= 0x80 (UTF-8 sequences of 2/3/4 bytes, lone continuation/lead bytes, 0x80, 0xFF, NBSP/NEL) "
+            "- all strings <=4 / <=5 over the shell alphabet + {C3,A9,80,FF} containing a high byte (exhaustive), 15 units x 11 syntactic contexts "
+            "(bare, '..', \"..\", backslash, next to quotes/blanks, split across quotes) x 8 token roles (positional, option name, option value, flag group), "
+            "seeded natural-text lines - vs shlex.split on the latin-1 decoding; for every command line the one-string form and the token-list form must be "
+            "indistinguishable through the getters; typed getters on any text with a high byte must throw invalid_argument; all 11111 lists of <=4 tokens "
+            "over a 10-token byte grammar x every getter subset through the three list constructors and the one-string form; 570 flag groups with high bytes "
+            "x 3 contexts x 2 forms judged by reading-independent laws. "
             "distinct_nontrivial = distinct (part, type, format, outcome class) / (list length, #positionals, #names) / "
             "(quoting features) classes, e.g. int:i16:HEX:unfit-low, tokens:len5:pos2:names3, cmdline:dqbs:sp:ntok.",
     "level_text": "Exploration with exhaustively enumerated small scopes: the integer range, token-list and getter-subset spaces "
@@ -47,6 +54,15 @@ SPEC = {
         "history:world0:position:absent", "history:world1:name:absent", "history:world4:name:present",
         "float:double:exp:*", "float:float:frac:neg", "float:double:garbage", "float:double:subnormal:*", "float:double:overflow-inf:*",
         "cmdline:dq*", "cmdline:sq*", "cmdline:bs*", "cmdline:bare:*", "cmdline:*:tab:*",
+        "cmdline-hi:role:positional:bare", "cmdline-hi:role:positional:sq", "cmdline-hi:role:positional:dq", "cmdline-hi:role:positional:bs",
+        "cmdline-hi:role:option-name:bare", "cmdline-hi:role:option-name:sq", "cmdline-hi:role:option-name:dq", "cmdline-hi:role:option-name:bs",
+        "cmdline-hi:role:option-value:bare", "cmdline-hi:role:option-value:sq", "cmdline-hi:role:option-value:dq", "cmdline-hi:role:option-value:bs",
+        "cmdline-hi:role:flag-group:*", "cmdline-hi:unit:utf8-2:*", "cmdline-hi:unit:utf8-3:*", "cmdline-hi:unit:utf8-4:*",
+        "cmdline-hi:unit:lone-continuation:*", "cmdline-hi:unit:lone-lead:*", "cmdline-hi:unit:0x80:*", "cmdline-hi:unit:0xff:*",
+        "cmdline-hi:adjacent:after-quote", "cmdline-hi:adjacent:before-quote", "cmdline-hi:adjacent:after-blank", "cmdline-hi:adjacent:before-blank",
+        "cmdline-hi:adjacent:line-start", "cmdline-hi:adjacent:line-end",
+        "bytes:len4:pos4:names0", "bytes:len4:pos0:names4", "bytes:maxgroups*",
+        "flag-hi:utf8-2:with-letters:*", "flag-hi:0xff:only-high:*", "flag-hi:lone-continuation:*", "flag-hi:0x80:*",
     ],
     "exhaustive": {"quick": False, "thorough": False},
     "exhaustive_note": "enumerated completely in both tiers: n in [-70000,70000] x 12 (format, documented spelling) pairs x 8 integer types; all token "
@@ -56,7 +72,12 @@ SPEC = {
         "CPython float() and shlex.split(posix=True) are the value/tokenisation references; only the unambiguous shell subset is "
         "judged (no empty quoted token, no backslash inside single quotes, only \\\" and \\\\ inside double quotes)",
         "not judged: leading blanks or '+', 64-bit targets with magnitude >= 2^63, DEFAULT-format digit strings like \"089\", "
-        "inf/nan/hex-float texts, single-valued getters on a repeated option, embedded NUL bytes",
+        "inf/nan/hex-float texts, single-valued getters on a repeated option, embedded NUL bytes (never generated: argv tokens cannot hold them and a "
+        "shell cannot pass them)",
+        "tokens are byte strings; a byte >= 0x80 is an ordinary token character (never a blank, quote or digit), the reference tokenisation is "
+        "shlex.split on the latin-1 decoding.  For flag groups containing bytes >= 0x80 the statement does not say whether a multi-byte letter is one "
+        "flag or several: only reading-independent laws are judged there (ASCII letters are flags, the high bytes are classified under some name, "
+        "exactly-once via assert_none_unused, both forms agree)",
         "phosg is observed through its public getters only; 'classified exactly once' = assert_none_unused() silent after every "
         "item predicted by the reference classifier has been read, plus probes of 19 candidate names",
     ],
